@@ -14,37 +14,52 @@ func pt() { vsched.Point() }
 
 // --- functions
 
-func AddInt32(addr *int32, delta int32) int32       { pt(); return atomic.AddInt32(addr, delta) }
-func AddInt64(addr *int64, delta int64) int64       { pt(); return atomic.AddInt64(addr, delta) }
-func AddUint32(addr *uint32, delta uint32) uint32   { pt(); return atomic.AddUint32(addr, delta) }
-func AddUint64(addr *uint64, delta uint64) uint64   { pt(); return atomic.AddUint64(addr, delta) }
-func AddUintptr(addr *uintptr, d uintptr) uintptr   { pt(); return atomic.AddUintptr(addr, d) }
-func LoadInt32(addr *int32) int32                   { pt(); return atomic.LoadInt32(addr) }
-func LoadInt64(addr *int64) int64                   { pt(); return atomic.LoadInt64(addr) }
-func LoadUint32(addr *uint32) uint32                { pt(); return atomic.LoadUint32(addr) }
-func LoadUint64(addr *uint64) uint64                { pt(); return atomic.LoadUint64(addr) }
-func LoadUintptr(addr *uintptr) uintptr             { pt(); return atomic.LoadUintptr(addr) }
-func LoadPointer(addr *unsafe.Pointer) unsafe.Pointer { pt(); return atomic.LoadPointer(addr) }
-func StoreInt32(addr *int32, v int32)               { pt(); atomic.StoreInt32(addr, v) }
-func StoreInt64(addr *int64, v int64)               { pt(); atomic.StoreInt64(addr, v) }
-func StoreUint32(addr *uint32, v uint32)            { pt(); atomic.StoreUint32(addr, v) }
-func StoreUint64(addr *uint64, v uint64)            { pt(); atomic.StoreUint64(addr, v) }
-func StoreUintptr(addr *uintptr, v uintptr)         { pt(); atomic.StoreUintptr(addr, v) }
+func AddInt32(addr *int32, delta int32) int32             { pt(); return atomic.AddInt32(addr, delta) }
+func AddInt64(addr *int64, delta int64) int64             { pt(); return atomic.AddInt64(addr, delta) }
+func AddUint32(addr *uint32, delta uint32) uint32         { pt(); return atomic.AddUint32(addr, delta) }
+func AddUint64(addr *uint64, delta uint64) uint64         { pt(); return atomic.AddUint64(addr, delta) }
+func AddUintptr(addr *uintptr, d uintptr) uintptr         { pt(); return atomic.AddUintptr(addr, d) }
+func LoadInt32(addr *int32) int32                         { pt(); return atomic.LoadInt32(addr) }
+func LoadInt64(addr *int64) int64                         { pt(); return atomic.LoadInt64(addr) }
+func LoadUint32(addr *uint32) uint32                      { pt(); return atomic.LoadUint32(addr) }
+func LoadUint64(addr *uint64) uint64                      { pt(); return atomic.LoadUint64(addr) }
+func LoadUintptr(addr *uintptr) uintptr                   { pt(); return atomic.LoadUintptr(addr) }
+func LoadPointer(addr *unsafe.Pointer) unsafe.Pointer     { pt(); return atomic.LoadPointer(addr) }
+func StoreInt32(addr *int32, v int32)                     { pt(); atomic.StoreInt32(addr, v) }
+func StoreInt64(addr *int64, v int64)                     { pt(); atomic.StoreInt64(addr, v) }
+func StoreUint32(addr *uint32, v uint32)                  { pt(); atomic.StoreUint32(addr, v) }
+func StoreUint64(addr *uint64, v uint64)                  { pt(); atomic.StoreUint64(addr, v) }
+func StoreUintptr(addr *uintptr, v uintptr)               { pt(); atomic.StoreUintptr(addr, v) }
 func StorePointer(addr *unsafe.Pointer, v unsafe.Pointer) { pt(); atomic.StorePointer(addr, v) }
-func SwapInt32(addr *int32, v int32) int32          { pt(); return atomic.SwapInt32(addr, v) }
-func SwapInt64(addr *int64, v int64) int64          { pt(); return atomic.SwapInt64(addr, v) }
-func SwapUint32(addr *uint32, v uint32) uint32      { pt(); return atomic.SwapUint32(addr, v) }
-func SwapUint64(addr *uint64, v uint64) uint64      { pt(); return atomic.SwapUint64(addr, v) }
-func SwapUintptr(addr *uintptr, v uintptr) uintptr  { pt(); return atomic.SwapUintptr(addr, v) }
+func SwapInt32(addr *int32, v int32) int32                { pt(); return atomic.SwapInt32(addr, v) }
+func SwapInt64(addr *int64, v int64) int64                { pt(); return atomic.SwapInt64(addr, v) }
+func SwapUint32(addr *uint32, v uint32) uint32            { pt(); return atomic.SwapUint32(addr, v) }
+func SwapUint64(addr *uint64, v uint64) uint64            { pt(); return atomic.SwapUint64(addr, v) }
+func SwapUintptr(addr *uintptr, v uintptr) uintptr        { pt(); return atomic.SwapUintptr(addr, v) }
 func SwapPointer(addr *unsafe.Pointer, v unsafe.Pointer) unsafe.Pointer {
 	pt()
 	return atomic.SwapPointer(addr, v)
 }
-func CompareAndSwapInt32(addr *int32, o, n int32) bool       { pt(); return atomic.CompareAndSwapInt32(addr, o, n) }
-func CompareAndSwapInt64(addr *int64, o, n int64) bool       { pt(); return atomic.CompareAndSwapInt64(addr, o, n) }
-func CompareAndSwapUint32(addr *uint32, o, n uint32) bool    { pt(); return atomic.CompareAndSwapUint32(addr, o, n) }
-func CompareAndSwapUint64(addr *uint64, o, n uint64) bool    { pt(); return atomic.CompareAndSwapUint64(addr, o, n) }
-func CompareAndSwapUintptr(addr *uintptr, o, n uintptr) bool { pt(); return atomic.CompareAndSwapUintptr(addr, o, n) }
+func CompareAndSwapInt32(addr *int32, o, n int32) bool {
+	pt()
+	return atomic.CompareAndSwapInt32(addr, o, n)
+}
+func CompareAndSwapInt64(addr *int64, o, n int64) bool {
+	pt()
+	return atomic.CompareAndSwapInt64(addr, o, n)
+}
+func CompareAndSwapUint32(addr *uint32, o, n uint32) bool {
+	pt()
+	return atomic.CompareAndSwapUint32(addr, o, n)
+}
+func CompareAndSwapUint64(addr *uint64, o, n uint64) bool {
+	pt()
+	return atomic.CompareAndSwapUint64(addr, o, n)
+}
+func CompareAndSwapUintptr(addr *uintptr, o, n uintptr) bool {
+	pt()
+	return atomic.CompareAndSwapUintptr(addr, o, n)
+}
 func CompareAndSwapPointer(addr *unsafe.Pointer, o, n unsafe.Pointer) bool {
 	pt()
 	return atomic.CompareAndSwapPointer(addr, o, n)
@@ -63,10 +78,10 @@ func OrUint64(addr *uint64, mask uint64) uint64  { pt(); return atomic.OrUint64(
 // Value shims atomic.Value.
 type Value struct{ v atomic.Value }
 
-func (v *Value) Load() any                         { pt(); return v.v.Load() }
-func (v *Value) Store(val any)                     { pt(); v.v.Store(val) }
-func (v *Value) Swap(n any) any                    { pt(); return v.v.Swap(n) }
-func (v *Value) CompareAndSwap(o, n any) bool      { pt(); return v.v.CompareAndSwap(o, n) }
+func (v *Value) Load() any                    { pt(); return v.v.Load() }
+func (v *Value) Store(val any)                { pt(); v.v.Store(val) }
+func (v *Value) Swap(n any) any               { pt(); return v.v.Swap(n) }
+func (v *Value) CompareAndSwap(o, n any) bool { pt(); return v.v.CompareAndSwap(o, n) }
 
 // Bool shims atomic.Bool.
 type Bool struct{ v atomic.Bool }
